@@ -258,3 +258,14 @@ func panicSite(stack string) string {
 	}
 	return "?"
 }
+
+// clientsStuck lists harness tasks (not library goroutines) that have not finished.
+func (x *Exec) clientsStuck() []string {
+	var out []string
+	for _, t := range x.Sim.Tasks() {
+		if !t.Daemon && t.State != verifsim.StDone {
+			out = append(out, fmt.Sprintf("%s@%s(%s)", t.Name, t.Site, t.State))
+		}
+	}
+	return out
+}
